@@ -30,6 +30,10 @@ impl FileSystem for FailingExists {
     fn remove_dir(&self, _p: &str) -> VfsResult<()> { Err(VfsErrorKind::NotSupported.into()) }
 }
 
+#[derive(rust_embed::RustEmbed, Debug)]
+#[folder = "embed"]
+struct Emb;
+
 fn main() {
     // ---------------- known findings (OverlayFS write side, C09 / C10 / C19)
     {
@@ -114,5 +118,28 @@ fn main() {
         ov.join("f").unwrap().remove_file().unwrap();
         let names: Vec<String> = ov.read_dir().unwrap().map(|p| p.filename()).collect();
         say("fixed.overlay.root_lists_whiteout", names.iter().any(|n| n == ".whiteout"));
+    }
+    {
+        let root: VfsPath = vfs::EmbeddedFS::<Emb>::new().into();
+        let r = std::panic::catch_unwind(std::panic::AssertUnwindSafe(|| root.open_file().is_err()));
+        say("fixed.embedded.open_file_root_panics", r.is_err());
+    }
+    #[cfg(unix)]
+    {
+        use std::os::unix::ffi::OsStrExt;
+        let dir = std::env::temp_dir().join(format!("vfs-replay-{}", std::process::id()));
+        let _ = std::fs::remove_dir_all(&dir);
+        std::fs::create_dir_all(&dir).unwrap();
+        // a dangling symlink where a directory is to be created
+        std::os::unix::fs::symlink(dir.join("nowhere"), dir.join("dangling")).unwrap();
+        let root: VfsPath = vfs::PhysicalFS::new(&dir).into();
+        let r = std::panic::catch_unwind(std::panic::AssertUnwindSafe(|| root.join("dangling").unwrap().create_dir().is_err()));
+        say("fixed.physical.create_dir_dangling_symlink_panics", r.is_err());
+        // a directory entry whose name is not valid UTF-8
+        let bad = std::ffi::OsStr::from_bytes(b"bad\xffname");
+        std::fs::write(dir.join(bad), b"x").unwrap();
+        let r = std::panic::catch_unwind(std::panic::AssertUnwindSafe(|| root.read_dir().map(|it| it.count())));
+        say("fixed.physical.read_dir_non_utf8_name_panics", r.is_err());
+        let _ = std::fs::remove_dir_all(&dir);
     }
 }
